@@ -16,10 +16,14 @@
     (`|v| ≤ max (Inf-MaxPlies) (Inf-ply)`) — is what a probe at `ply` answers (`tt_probe`) and what a
     store at `ply` may be handed (`tt_store`; `Inf` stored at ply 5 would read back `Inf+5` at ply 0).
     Every value an un-aborted node at `ply` returns or stores is `RelP ply` (`QRange`, `ABRange`) —
-    PROVIDED the null move is not tried below the mate band (`nmp_floor`): `return beta` with
-    `beta < -(Inf-ply)` is the one place where a node hands out a score no position at its ply can
-    have.  search.go guards reverse futility that way but not the null move; see
-    Proofs/SearchRealScore.lean;
+    PROVIDED the mate branch of null-move pruning never returned a `beta` below `-Inf+ply`: that is the
+    one place where a node hands out a score no position at its ply can have (search.go guards
+    reverse futility against the mate band but not the null move).  The skeleton records the event in
+    the ghost flag `St.nmpOut` (`nullMove`), and every statement of the range development is
+    GUARDED by the flag: hypotheses about a state `s` are assumed under `s.nmpOut = false`,
+    conclusions about the state returned hold under its `nmpOut = false` (`TTA`, `QRange`,
+    `ABRange`).  The flag is monotone, so `nmpOut = false` at the end of a run means that the event
+    never happened in it;
   * `rfp_sound`, `nmp_sound`: reverse futility / null move are only tried with `staticEval ≥ beta`
     (for `rfpCut` this needs `beta + d*RFPScoreFactor` not to wrap: `beta ≤ rfpSafe`, the bound for
     `RFPDepthLimit ≤ 10`, `RFPScoreFactor ≤ 130` of params/spsa.go);
@@ -90,9 +94,6 @@ structure ScoreLaws (c : Comp σ π) (Good : Board → Prop) (TTok : σ → Prop
       table adds `ply` to a mate score, so `Inf` stored at ply 5 would read back `Inf + 5` at ply 0) -/
   tt_store : ∀ ps b d ply m v bd, TTok ps → 0 ≤ ply → ply ≤ 127 → RelP ply v →
     PsInv.ok (c.ttStore ps b d ply m v bd) → TTok (c.ttStore ps b d ply m v bd)
-  /-- null-move pruning is not tried below the mate band (`return beta` would hand a value to the
-      parent that no position at this ply can have) -/
-  nmp_floor : ∀ b d se beta, c.nmpTry b d se beta = true → -9936 ≤ beta
   tt_failHigh : ∀ ps d b p hs, TTok ps → TTok (c.failHigh ps d b p hs)
   tt_nextGen : ∀ ps, TTok ps → TTok (c.nextGen ps)
   rfp_sound : ∀ d se beta, 0 ≤ d → beta ≤ rfpSafe → c.rfpCut d se beta = true → beta ≤ se
@@ -101,6 +102,21 @@ structure ScoreLaws (c : Comp σ π) (Good : Board → Prop) (TTok : σ → Prop
   window : 0 ≤ c.windowSize ∧ c.windowSize ≤ 100
   q_measure : ∀ ps b hs m w, Good b → (m, w) ∈ c.qMoves ps b hs → μ (b.makeMove c.keys m).1 < μ b
   measure_bound : ∀ b, Good b → μ b ≤ 48
+
+/-- the table predicate as far as it can be known: the persistent state satisfies the invariant of
+    the component laws (unconditionally: `Laws.ok_store`), and — unless the ghost flag has been
+    raised — the table predicate. -/
+def TTA (TTok : σ → Prop) (s : St σ) : Prop := PsInv.ok s.ps ∧ (s.nmpOut = false → TTok s.ps)
+
+theorem TTA.congr {TTok : σ → Prop} {s s' : St σ} (hps : s'.ps = s.ps) (ha : s'.nmpOut = s.nmpOut)
+    (h : TTA TTok s) : TTA TTok s' :=
+  ⟨by rw [hps]; exact h.1, fun h' => by rw [hps]; exact h.2 (by rw [← ha]; exact h')⟩
+
+/-- the flag is monotone: a state reached from `s` with the flag down has `s.nmpOut = false`. -/
+theorem Mono.a_back {L : Limits} {s s' : St σ} (h : Mono L s s') (h' : s'.nmpOut = false) : s.nmpOut = false := by
+  cases hs : s.nmpOut
+  · rfl
+  · rw [h.nmp_mono hs] at h'; cases h'
 
 /-! ### int16 arithmetic -/
 
@@ -200,6 +216,37 @@ theorem not_aborted_of_mono {L : Limits} {s s' : St σ} (h : Mono L s s') (h' : 
   cases hs : s.aborted
   · rfl
   · rw [h.aborted_mono hs] at h'; cases h'
+
+omit [PsInv σ] in
+@[simp] theorem setBoard_nmpOut' (s : St σ) (b : Board) : (s.setBoard b).nmpOut = s.nmpOut := rfl
+omit [PsInv σ] in
+@[simp] theorem pop_nmpOut' (s : St σ) : s.pop.nmpOut = s.nmpOut := rfl
+omit [PsInv σ] in
+@[simp] theorem push_nmpOut' (s : St σ) (sm : StackMove) : (s.push sm).nmpOut = s.nmpOut := rfl
+omit [PsInv σ] in
+@[simp] theorem pushFrame_nmpOut' (s : St σ) : s.pushFrame.nmpOut = s.nmpOut := rfl
+omit [PsInv σ] in
+@[simp] theorem popFrame_nmpOut' (s : St σ) : s.popFrame.nmpOut = s.nmpOut := rfl
+omit [PsInv σ] in
+@[simp] theorem setPs_nmpOut' (s : St σ) (ps : σ) : (s.setPs ps).nmpOut = s.nmpOut := rfl
+omit [PsInv σ] in
+@[simp] theorem setPv_nmpOut' (s : St σ) (pv : Pv.Rows) : (s.setPv pv).nmpOut = s.nmpOut := rfl
+
+omit [PsInv σ] in
+theorem abort_nmpOut (L : Limits) (s : St σ) : (abort L s).2.nmpOut = s.nmpOut := by
+  unfold abort
+  split
+  · rfl
+  · split
+    · rfl
+    · split <;> rfl
+
+omit [PsInv σ] in
+theorem incrementNodes_nmpOut (L : Limits) (s : St σ) : (incrementNodes L s).nmpOut = s.nmpOut := by
+  unfold incrementNodes
+  split
+  · rfl
+  · split <;> rfl
 
 omit [PsInv σ] in
 @[simp] theorem popFrame_ps (s : St σ) : s.popFrame.ps = s.ps := rfl
